@@ -31,6 +31,8 @@ def build(case):
 
 
 def replay(case):
+    if "aggregation" in case:
+        return replay_agg(case)
     m, df = build(case)
     before = df.copy(deep=True)
     res = m._predict(df.copy())
@@ -65,11 +67,49 @@ def replay(case):
     return {"ok": not bad, "problems": bad}
 
 
+def replay_agg(case):
+    """BillingModel.predict through the data class with monthly / bi-monthly aggregation: in every period the aggregated observed is the sum of the
+    usage of exactly the days that got a prediction, so that (sum predicted - sum observed) equals the row-wise savings of the daily result"""
+    import opendsm.eemeter as em
+    from opendsm.eemeter.models.billing.model import BillingModel
+    m = BillingModel.from_dict(param_doc("billing", case["shape"], case["split"], False))
+    rng = np.random.default_rng(case["seed"])
+    n = case["n_days"]
+    idx = pd.date_range(case["start"], periods=n, freq="D", tz="America/Chicago")
+    T = 55 + 25 * np.sin(np.arange(n) / 58.0) + rng.normal(0, 3, n)
+    obs = 20 + 0.9 * np.maximum(50 - T, 0) + 0.6 * np.maximum(T - 68, 0) + rng.normal(0, 1, n)
+    df = pd.DataFrame({"temperature": T, "observed": obs}, index=idx)
+    for a, k in case["t_gaps"]:
+        df.iloc[a:a + k, 0] = np.nan
+    for a, k in case["o_gaps"]:
+        df.iloc[a:a + k, 1] = np.nan
+    data = em.BillingReportingData(df, is_electricity_data=True)
+    daily = m.predict(data, ignore_disqualification=True)
+    agg = m.predict(data, aggregation=case["aggregation"], ignore_disqualification=True)
+    bad = []
+    rule = "MS" if case["aggregation"] == "monthly" else "2MS"
+    both = np.isfinite(daily["predicted"].astype(float)) & np.isfinite(daily["observed"].astype(float))
+    ref_obs = daily["observed"].astype(float).where(both).resample(rule).sum(min_count=1)
+    ref_pred = daily["predicted"].astype(float).where(both).resample(rule).sum(min_count=1)
+    for col, ref in (("observed", ref_obs), ("predicted", ref_pred)):
+        got = agg[col].astype(float).reindex(ref.index)
+        ok = np.isclose(got.values, ref.values, rtol=1e-9, atol=1e-9, equal_nan=True) | (np.isnan(ref.values) & (got.values == 0))
+        if not ok.all():
+            i = int(np.argmin(ok))
+            bad.append(f"{case['aggregation']}: period {ref.index[i].date()} {col} = {got.values[i]!r} but the days of that period that have both values add up to {ref.values[i]!r}")
+    s_rows = float(np.nansum((daily["predicted"].astype(float) - daily["observed"].astype(float)).where(both)))
+    s_cols = float(np.nansum(agg["predicted"].astype(float)) - np.nansum(agg["observed"].astype(float)))
+    if not np.isclose(s_rows, s_cols, rtol=1e-9, atol=1e-7):
+        bad.append(f"{case['aggregation']}: sum(predicted) - sum(observed) over the periods = {s_cols!r}, row-wise savings of the daily result = {s_rows!r}")
+    return {"ok": not bad, "problems": bad}
+
+
 def run(tier="quick", seed=0):
     b = Bounded("C07", "C07.rows", MODULE,
                 "real _predict of parameter-built daily/billing models: exhaustive patterns over 3 consecutive days of temperature in "
                 "{ok, NaN, +inf, -inf} x usage in {ok, NaN, +inf, 0, column absent} (4^3*(4^3+1) frames per model, reduced in the quick tier) "
-                "for 2 shapes x 2 split layouts x 2 families; row-wise contract (both-or-neither, masking, values kept, sums); "
+                "for 2 shapes x 2 split layouts x 2 families; row-wise contract (both-or-neither, masking, values kept, sums); BillingModel.predict with monthly / bi-monthly "
+                "aggregation on 95-365 day reporting frames with days lacking temperature and days lacking usage (period sums = sums over the days that have both values); "
                 "distinct = distinct (family, shape, split, pattern)", known_findings=load_known("C07"))
     fams = ["daily", "billing"]
     layouts = [("hdd_tidd_cdd", "unsplit"), ("hdd_tidd_smooth", "season2")]
@@ -90,5 +130,21 @@ def run(tier="quick", seed=0):
                     r = {"ok": False, "problems": [f"exception {type(e).__name__}: {e}"]}
                 b.case("C07.rows", case, r["ok"], nontrivial_key=(fam, shape, split, tuple(t), None if o is None else tuple(o)),
                        detail=r["problems"])
+    # billing aggregation on reporting data with days lacking temperature and days lacking usage
+    k = 0
+    for agg in ("monthly", "bimonthly"):
+        for shape, split in layouts:
+            for start, n_days in (("2023-01-01", 120), ("2023-03-17", 95)) if tier == "quick" else (("2023-01-01", 365), ("2023-03-17", 95), ("2023-10-20", 150)):
+                k += 1
+                r0 = np.random.default_rng(100 * seed + k)
+                case = {"aggregation": agg, "shape": shape, "split": split, "start": start, "n_days": n_days, "seed": int(100 * seed + k),
+                        "t_gaps": [[int(r0.integers(3, n_days - 10)), int(r0.integers(1, 6))] for _ in range(3)],
+                        "o_gaps": [[int(r0.integers(3, n_days - 10)), int(r0.integers(1, 4))] for _ in range(2)]}
+                try:
+                    r = replay_agg(case)
+                except Exception as e:  # noqa
+                    import traceback
+                    r = {"ok": False, "problems": [f"exception {type(e).__name__}: {e}", traceback.format_exc()[-400:]]}
+                b.case("C07.agg", case, r["ok"], nontrivial_key=str(case), detail=r["problems"])
     b.exhaustive = tier == "thorough"
     return b.result()
